@@ -432,6 +432,7 @@ def run(ctx):
     # ---- D16: "bad numbers ... reports each problem as an error record": every conversion of a token into a number looks at
     # how much of the token the conversion took
     d16_numbers_checked(db, rep, pfuncs)
+    d17_name_scan_complete(db, rep, pfuncs)
 
     # ---- D8: parser state never keeps a freed pointer ---------------------
     # (a freed parser/program field left in place is freed again by orc_parse_code / orc_program_free,
@@ -550,4 +551,34 @@ def d16_numbers_checked(db, rep, pfuncs, rule="D16-NUMBERS-CHECKED"):
                       "or as its numeric prefix and no error record is produced" % (f.name, unparse(src)[:40], c.name, bad), line=c.line)
     if n < 2:
         raise AnalysisBroken("only %d token-to-number conversions found in orcparse.c" % n)
+    return n
+
+
+def d17_name_scan_complete(db, rep, pfuncs, rule="D17-NAME-SCAN-COMPLETE"):
+    """D17: the parser reports a name declared twice by comparing the names of the program's variable slots pairwise.  Every
+    slot that a declaration can fill has to take part: both loops of the comparison must run up to the LAST enumerator of the
+    variable numbering (the 16th temporary) - a bound one short leaves exactly the declarations that overflow into the last
+    slot unreported."""
+    from loops import counted
+    tu = db.tu("orcparse")
+    last = max(v for k, v in tu.enums.items() if k.startswith("ORC_VAR_") and k[8:9] in "DSACPT" and k[9:].isdigit())
+    n = 0
+    for f in pfuncs:
+        cmps = [c for c in f.calls("strcmp") if sum(1 for a in c.args() if any(y.k == "MemberExpr" and y.name == "name" for y in a.walk())
+                                                  and any(y.k == "MemberExpr" and y.name == "vars" for y in a.walk())) == 2]
+        for c in cmps:
+            loops_ = [a for a in c.ancestors() if a.k == "ForStmt"]
+            cls = [counted(l) for l in loops_]
+            cls = [x for x in cls if x and x["dir"] == "asc"]
+            if len(cls) < 2:
+                continue
+            n += 1
+            rep.saw(f)
+            short = [x for x in cls if x["last"][0] is None and x["last"][1] < last]
+            rep.check(not short, rule, where(f), "name-scan@%s" % c.line,
+                      "both loops of the pairwise name comparison run to slot %d (the last variable)" % last,
+                      "%s compares variable names pairwise only up to slot %s, the numbering goes to %d: a name declared twice is not reported when one of "
+                      "the two declarations is the last temporary" % (f.name, short[0]["last"][1] if short else "?", last), line=c.line)
+    if n < 1:
+        raise AnalysisBroken("the pairwise variable-name comparison was not found in orcparse.c")
     return n
